@@ -11,6 +11,19 @@ from .astq import FUNC_TYPES, assigned_names, src, walk_local, ast_copy
 from .cfg import CFG, Node
 
 
+def _is_state_init(v) -> bool:
+    """Initial values of accumulators / flags are state, not aliases: never substituted"""
+    if isinstance(v, ast.Constant):
+        return True
+    if isinstance(v, (ast.List, ast.Set, ast.Tuple)) and not v.elts:
+        return True
+    if isinstance(v, ast.Dict) and not v.keys:
+        return True
+    if isinstance(v, ast.Call) and isinstance(v.func, ast.Name) and v.func.id in ("dict", "list", "set") and not v.args and not v.keywords:
+        return True
+    return False
+
+
 class Def:
     __slots__ = ("node", "name", "kind", "value")
 
@@ -170,7 +183,7 @@ class ReachingDefs:
                 ds = rd.defs_at(n.id, self.at)
                 if len(ds) == 1:
                     d = next(iter(ds))
-                    if d.kind in ("assign", "walrus") and d.node is not self.at and self.depth > 0:
+                    if d.kind in ("assign", "walrus") and d.node is not self.at and self.depth > 0 and not _is_state_init(d.value):
                         t = T(d.node, self.depth - 1)
                         return t.visit(ast_copy(d.value))
                     if rename:
@@ -401,6 +414,116 @@ def walk_table(
 
         raise Undecided(f"decision table: more than {limit} paths from line {start.lineno}")
     return out
+
+
+class PathTrace:
+    __slots__ = ("conds", "end", "calls", "nodes")
+
+    def __init__(self, conds, end, calls, nodes):
+        self.conds = conds  # list of (canonical atom text, polarity) in path order
+        self.end = end  # 'return <canon>' | 'return' | 'raise:<Name>' | 'raise' | 'fall'
+        self.calls = calls  # canonical texts of call statements on the path
+        self.nodes = nodes
+
+    def has(self, text, pol) -> bool:
+        return (text, pol) in self.conds
+
+    def __repr__(self):
+        return f"<{self.conds} -> {self.end}>"
+
+
+def path_traces(fn_node, raising_calls=None, limit=3000, alpha=True) -> List[PathTrace]:
+    """All acyclic paths of a (small) function as (conditions, end) pairs; loops are entered at most once.
+    Texts are canonical (aliases inlined, comprehension variables numbered); explicit raises and returns end a path."""
+    g = CFG(fn_node, raising_calls=raising_calls)
+    rd = ReachingDefs(g)
+    out: List[PathTrace] = []
+    count = [0]
+
+    def text(e, n):
+        return renumber_local(rd.acanon(e, n)) if alpha else rd.canon(e, n)
+
+    def rec(n, conds, calls, nodes, used):
+        count[0] += 1
+        if count[0] > limit * 20 or len(out) > limit:
+            raise_undecided(fn_node)
+        if n is g.exit:
+            out.append(PathTrace(conds, "fall", calls, nodes))
+            return
+        if n is g.raise_:
+            out.append(PathTrace(conds, "raise", calls, nodes))
+            return
+        nodes2 = nodes + [n]
+        if n.kind == "stmt":
+            if isinstance(n.ast, ast.Return):
+                out.append(PathTrace(conds, "return" + ("" if n.ast.value is None else " " + text(n.ast.value, n)), calls, nodes2))
+                return
+            if isinstance(n.ast, ast.Raise):
+                nm = ""
+                if n.ast.exc is not None:
+                    e = n.ast.exc.func if isinstance(n.ast.exc, ast.Call) else n.ast.exc
+                    nm = (dotted_name(e) or "")
+                if not nm.startswith("__InlineReturn"):
+                    out.append(PathTrace(conds, "raise:" + nm.split(".")[-1], calls, nodes2))
+                    return
+            if n.extra.get("assert_fail"):
+                out.append(PathTrace(conds, "raise:AssertionError", calls, nodes2))
+                return
+            if isinstance(n.ast, ast.Expr) and isinstance(n.ast.value, ast.Call):
+                calls = calls + [text(n.ast.value, n)]
+        succ = n.succ
+        if n.kind == "test":
+            t = text(n.ast, n)
+            for m, l in succ:
+                if l in (True, False):
+                    e = (n.id, m.id, l)
+                    if e in used:
+                        continue
+                    rec(m, conds + [(t, l)], calls, nodes2, used | {e})
+            return
+        explicit = bool(succ) and all(l == "exc" for _, l in succ)
+        for m, l in succ:
+            if l == "exc" and not explicit:
+                continue
+            e = (n.id, m.id, l)
+            if e in used:
+                continue
+            rec(m, conds, calls, nodes2, used | {e})
+
+    rec(g.entry, [], [], [], frozenset())
+    return out
+
+
+def dotted_name(e):
+    from .astq import dotted
+
+    return dotted(e)
+
+
+def raise_undecided(fn_node):
+    from .loader import Undecided
+
+    raise Undecided(f"too many paths in {getattr(fn_node, 'name', '?')}")
+
+
+def renumber_local(text: str) -> str:
+    """Renumber only comprehension / lambda tokens (parameters and locals keep readable names)"""
+    import re
+
+    m: Dict[str, str] = {}
+
+    def rep(mo):
+        t = mo.group(0)
+        if t not in m:
+            m[t] = f"${len(m) + 1}"
+        return m[t]
+
+    text = re.sub("\u00abc:[0-9]+\u00bb", rep, text)
+    # binding-site tokens of parameters / locals: back to their (canonical) names
+    text = re.sub("\u00abp:([0-9]+)\u00bb", lambda mo: f"<p{mo.group(1)}>", text)
+    text = re.sub("\u00ab[a-z]+:[0-9]+:([A-Za-z_0-9]+)\u00bb", lambda mo: mo.group(1), text)
+    text = re.sub("\u03c6\\(([^)]*)\\)", lambda mo: "|".join(sorted(set(mo.group(1).split("|")))), text)
+    return text
 
 
 def truth_of(expr, classify_text, scenario) -> Optional[bool]:
